@@ -21,8 +21,18 @@ class CaseTimeout(Exception):
     pass
 
 
+_TIMEOUTS = [0]
+
+
 def _alarm(signum, frame):
+    _TIMEOUTS[0] += 1
     raise CaseTimeout()
+
+
+def _budget(seconds):
+    # once a case has run into the alarm in this worker, later cases get a short budget: code that hangs, hangs again, and the
+    # check is failing already (normal cases take milliseconds)
+    return seconds if _TIMEOUTS[0] == 0 else max(2, seconds // 4)
 
 
 _DEPTH = [0]
@@ -34,7 +44,7 @@ def with_alarm(fn, *a, seconds=None):
         return fn(*a)
     old = signal.signal(signal.SIGALRM, _alarm)
     _DEPTH[0] = 1
-    signal.alarm(seconds or CASE_SECONDS)
+    signal.alarm(_budget(seconds or CASE_SECONDS))
     try:
         return fn(*a)
     finally:
@@ -49,7 +59,7 @@ def begin_alarm(seconds):
         return None
     old = signal.signal(signal.SIGALRM, _alarm)
     _DEPTH[0] = 1
-    signal.alarm(seconds)
+    signal.alarm(_budget(seconds))
     return (old,)
 
 
